@@ -35,6 +35,22 @@ def extra_cases(rng, quick):
                     base = cssgen.gen_options(rng.fork(("o", len(out))))
                     base.update(o)
                     out.append((base, css))
+    # `:host` spelt so that the bytes ":host" never stand together (escapes in the identifier, a comment between `:` and the name): it is the same rule for
+    # any reader of the tokens (round 12, C17-11: a source-text test switched the conversion off); host_is / class_prefix with characters that Rust's `{:?}`
+    # and a CSS string escape differently (round 12, C17-12)
+    for css in (":h\\6f st{color:red} .a{b:c}", ":hos\\74{color:red}", ":/* c */host{color:red} .a{b:c}", "@media print{:\\68 ost{x:y} .q{r:s}}",
+                ":h\\6fst{a:b} @supports (c:d){:\\000068ost {e:f}}"):
+        for o in ({"convert_host": True, "class_prefix": "p"}, {"convert_host": True, "class_prefix": None, "host_is": "comp"}):
+            base = cssgen.gen_options(rng.fork(("oh", len(out))))
+            base.update(o)
+            out.append((base, css))
+    for hi in ("components/my\tcard", "a\nb", "cafe\u0301", "zero\u200bwidth", "q\u007f", "\u00a0x", "tab\tquote\"back\\slash"):
+        for css in (":host{color:red}", "@media print{:host{a:b}} .c{d:e}"):
+            base = cssgen.gen_options(rng.fork(("oi", len(out))))
+            base.update({"convert_host": True, "class_prefix": "p", "host_is": hi, "import_sign": None})
+            out.append((base, css))
+            base2 = dict(base); base2.update({"host_is": None, "class_prefix": hi})
+            out.append((base2, css))
     return out
 
 
